@@ -93,7 +93,7 @@ def main():
             continue
         t1 = time.time()
         fdef, path = ctx.extract(spec["module"], spec["qual"])
-        clauses = ["frame"] + (["alias"] if spec.get("independent_of") else []) + (["order"] if (spec.get("deterministic") or "C19" in spec["props"]) else [])
+        clauses = ["frame"] + (["alias"] if spec.get("independent_of") or spec.get("independent_of_mutable") else []) + (["order"] if (spec.get("deterministic") or "C19" in spec["props"]) else [])
         if fdef is None:
             for cl in clauses:
                 section["obligations"].append({"name": "%s/%s" % (name, cl), "status": C.UNREACHABLE, "backend": "none", "detail": "function %s not found in %s"
@@ -101,7 +101,7 @@ def main():
             continue
         section["functions"].append({"qualname": "%s:%s" % (spec["module"], spec["qual"]), "file": path, "sha256": C.sha256_file(path),
                                      "lines": [fdef.lineno, fdef.end_lineno], "dropped": ["docstrings", "annotations", "comments"], "contract_mode": "frame",
-                                     "props": spec["props"], "clauses": {k: spec.get(k) for k in ("modifies", "outputs", "independent_of", "deterministic", "order_free")}})
+                                     "props": spec["props"], "clauses": {k: spec.get(k) for k in ("modifies", "outputs", "independent_of", "independent_of_mutable", "deterministic", "order_free")}})
         ctx.cur_globals = ["_VAR", "_PARAMS"] if "listener" in spec["module"] or "auxiliary" in spec["module"] else []
         ex = FrameExec(ctx, name, spec)
         st = St()
@@ -137,7 +137,8 @@ def main():
         for cl in clauses:
             fs = sorted(set(by.get(cl, [])), key=lambda x: (x[0] or 0, x[1]))
             goal = {"frame": "writes only into %s" % (spec.get("modifies") or "nothing"),
-                    "alias": "no object of %s is stored into %s" % (spec.get("independent_of"), spec.get("outputs", ["return"])),
+                    "alias": "no object of %s (nor, once known to be a list / array / dict / set, %s) is stored into %s"
+                             % (spec.get("independent_of", []), spec.get("independent_of_mutable", []), spec.get("outputs", ["return"])),
                     "order": "no order-sensitive consumer is fed by the iteration order of a set (documented freedom: %s)" % spec.get("order_free", [])}[cl]
             rec = {"name": "%s/%s" % (name, cl), "status": C.DISCHARGED if not fs else C.FAILED, "backend": "provenance+z3", "time_s": round(time.time() - t1, 3),
                    "goal": goal, "props": spec["props"], "witness_families": spec.get("families", [])}
